@@ -80,11 +80,11 @@ def seed_grammar(t):
         lines.append("L <- L 'a' / 'a'")
     return "\n".join(lines) + "\n"
 
-def build_host(sc, pigeon, t):
+def build_host(sc, pigeon, t, race=False):
     """Generate a host parser for template variant t with the real pigeon and compile it
     together with the host driver.  Returns the path of the executable."""
     opt, gs, lr, bl = t
-    name = variant_name(t)
+    name = variant_name(t) + ("_race" if race else "")
     d = sc.path("hosts", name, "x")
     d = os.path.dirname(d)
     with open(os.path.join(d, "seed.peg"), "w") as f:
@@ -105,7 +105,7 @@ def build_host(sc, pigeon, t):
     if opt: tags.append("opt")
     if lr: tags.append("lr")
     exe = os.path.join(d, "host")
-    run(["go", "build", "-tags", " ".join(tags), "-o", exe, "."], cwd=d, env=go_env(), timeout=600)
+    run(["go", "build"] + (["-race"] if race else []) + ["-tags", " ".join(tags), "-o", exe, "."], cwd=d, env=go_env(), timeout=900)
     return exe
 
 def build_hosts(sc, pigeon, variants):
